@@ -609,6 +609,31 @@ def _unroll_table_loops(tree: ast.Module, known: set) -> None:
             if isinstance(st, ast.Try):
                 for h in st.handlers:
                     h.body = unroll(h.body)
+            if isinstance(st, ast.For) and isinstance(st.iter, ast.Name) and st.iter.id in tables and len(st.body) == 1 and isinstance(st.body[0], ast.If) \
+                    and not st.body[0].orelse and len(st.body[0].body) == 1 and isinstance(st.body[0].body[0], ast.Break) \
+                    and not any(isinstance(x, (ast.Break, ast.Continue)) for o_ in st.orelse for x in ast.walk(o_)):
+                # the search idiom `for row in TABLE: if C(row): break  [else: E]`: the first matching row stays bound to the loop variables, E runs when
+                # none matches (without `else` the last row stays bound).  Unrolled into a chain of tests with the rows assigned in turn.
+                tg = st.target
+                ok_t = isinstance(tg, ast.Name) or (isinstance(tg, ast.Tuple) and all(isinstance(e, ast.Name) for e in tg.elts))
+                elts = tables[st.iter.id].elts
+                if ok_t and (isinstance(tg, ast.Name) or all(isinstance(e, (ast.Tuple, ast.List)) and len(e.elts) == len(tg.elts) for e in elts)):
+                    def build(i, _st=st, _tg=tg, _elts=elts):
+                        asg = ast.copy_location(ast.Assign(targets=[copy.deepcopy(_tg)], value=copy.deepcopy(_elts[i]), lineno=_st.lineno), _st)
+                        rest = build(i + 1) if i + 1 < len(_elts) else [copy.deepcopy(x) for x in _st.orelse]
+                        names_ = [_tg.id] if isinstance(_tg, ast.Name) else [e.id for e in _tg.elts]
+                        vals_ = [_elts[i]] if isinstance(_tg, ast.Name) else list(_elts[i].elts)
+                        m_ = dict(zip(names_, vals_))
+
+                        class S_(ast.NodeTransformer):
+                            def visit_Name(self, n: ast.Name):
+                                if n.id in m_ and isinstance(n.ctx, ast.Load):
+                                    return ast.copy_location(copy.deepcopy(m_[n.id]), n)
+                                return n
+                        test = S_().visit(copy.deepcopy(_st.body[0].test))  # evaluated right after the assignment: the row's values
+                        return [asg, ast.copy_location(ast.If(test=test, body=[ast.copy_location(ast.Pass(), _st)], orelse=rest), _st)]
+                    out.extend(build(0))
+                    continue
             if isinstance(st, ast.For) and not st.orelse:
                 it = st.iter
                 elts = None
